@@ -1,6 +1,7 @@
 package main
 
 import (
+	"math"
 	"fmt"
 
 	"github.com/tidwall/geojson/geometry"
@@ -485,6 +486,22 @@ func rectSeriesOne(rc geometry.Rect, mi int) (class, exp, got string, evals int6
 			return "rect-exterior-poly", fmt.Sprintf("probe %v: %v", pt, g2), fmt.Sprint(g1), evals
 		}
 	}
+	// Poly with the Rect as a hole == Poly with the corner ring as a hole
+	outer := []geometry.Point{{X: -4 + d[0], Y: -4 + d[1]}, {X: 8 + d[0], Y: -4 + d[1]}, {X: 8 + d[0], Y: 8 + d[1]}, {X: -4 + d[0], Y: 8 + d[1]}, {X: -4 + d[0], Y: -4 + d[1]}}
+	h1 := geometry.NewPoly(outer, nil, idxNone)
+	h1.Holes = []geometry.Ring{rcm}
+	h2 := geometry.NewPoly(outer, [][]geometry.Point{corners}, idxNone)
+	for _, h := range H {
+		pt := geometry.Point{X: ident.pt(h).X + d[0], Y: ident.pt(h).Y + d[1]}
+		l := geometry.NewLine([]geometry.Point{pt, {X: pt.X + 1, Y: pt.Y + 0.5}}, idxNone)
+		q := geometry.Rect{Min: pt, Max: geometry.Point{X: pt.X + 0.5, Y: pt.Y + 1}}
+		g1 := []bool{h1.ContainsPoint(pt), h1.IntersectsPoint(pt), h1.ContainsLine(l), h1.IntersectsLine(l), h1.ContainsRect(q), h1.IntersectsRect(q), h1.ContainsPoly(p2), h1.IntersectsPoly(p2), p2.IntersectsPoly(h1)}
+		g2 := []bool{h2.ContainsPoint(pt), h2.IntersectsPoint(pt), h2.ContainsLine(l), h2.IntersectsLine(l), h2.ContainsRect(q), h2.IntersectsRect(q), h2.ContainsPoly(p2), h2.IntersectsPoly(p2), p2.IntersectsPoly(h2)}
+		evals += int64(len(g1))
+		if fmt.Sprint(g1) != fmt.Sprint(g2) {
+			return "rect-hole-poly", fmt.Sprintf("probe %v: %v", pt, g2), fmt.Sprint(g1), evals
+		}
+	}
 	return "", "", "", evals
 }
 
@@ -536,10 +553,20 @@ func evalC18Rect(c *rt.Case) (bool, string, string, error) {
 // under the (positive, per-axis) change of units.
 func c19UlpGrid(r *rt.Run) {
 	const ulp = 1.0 / (1 << 33)
-	for _, base := range []float64{1048575, -1048575} {
-		base := base
-		fx := func(k int64) float64 { return base + float64(k)*ulp }
-		mk := func(p exact.P) geometry.Point { return geometry.Point{X: fx(p.X), Y: float64(p.Y)} }
+	for _, base0 := range []float64{1048575, -1048575, 2097151, -2097151} {
+		// |base| = 2^21-1 stands for "the same, transposed": the ulp-spaced ordinate is y
+		origin, transposed := base0, false
+		if math.Abs(base0) > 2000000 {
+			origin, transposed = math.Copysign(1048575, base0), true
+		}
+		fx := func(k int64) float64 { return origin + float64(k)*ulp }
+		mk := func(p exact.P) geometry.Point {
+			if transposed {
+				return geometry.Point{X: float64(p.X), Y: fx(p.Y)}
+			}
+			return geometry.Point{X: fx(p.X), Y: float64(p.Y)}
+		}
+		base := base0 // recorded in the case
 		var pts []exact.P
 		for k := int64(0); k < 7; k++ {
 			for y := int64(0); y < 7; y++ {
@@ -605,6 +632,10 @@ func evalC19UlpGrid(c *rt.Case) (bool, string, string, error) {
 	base := c.Nums[0]
 	ip := func(i int) exact.P { return exact.P{X: int64(c.Nums[i]), Y: int64(c.Nums[i+1])} }
 	mk := func(p exact.P) geometry.Point { return geometry.Point{X: base + float64(p.X)*ulp, Y: float64(p.Y)} }
+	if math.Abs(base) > 2000000 {
+		b := math.Copysign(1048575, base)
+		mk = func(p exact.P) geometry.Point { return geometry.Point{X: float64(p.X), Y: b + float64(p.Y)*ulp} }
+	}
 	a, b, p := ip(1), ip(3), ip(5)
 	fs := geometry.Segment{A: mk(a), B: mk(b)}
 	on := exact.OnSeg(p, a, b)
@@ -630,4 +661,78 @@ func evalC19UlpGrid(c *rt.Case) (bool, string, string, error) {
 		return g1 != want || g2 != want, fmt.Sprint(want), fmt.Sprintf("%v / swapped %v", g1, g2), nil
 	}
 	return false, "", "", fmt.Errorf("unknown op")
+}
+
+// c19NegZero: the lattice kernels with zero ordinates written as -0 (probe
+// only, segment only, both): -0 is the same number as 0.
+func c19NegZero(r *rt.Run) {
+	L := lat.Lattice(5, -2)
+	nz := func(p exact.P, on bool) geometry.Point {
+		q := geometry.Point{X: float64(p.X), Y: float64(p.Y)}
+		if on {
+			if p.X == 0 {
+				q.X = math.Copysign(0, -1)
+			}
+			if p.Y == 0 {
+				q.Y = math.Copysign(0, -1)
+			}
+		}
+		return q
+	}
+	r.ParFor(len(L), func(i int, w *rt.Worker) {
+		a := L[i]
+		for _, b := range L {
+			for _, p := range L {
+				if a.X != 0 && a.Y != 0 && b.X != 0 && b.Y != 0 && p.X != 0 && p.Y != 0 {
+					continue
+				}
+				on := exact.OnSeg(p, a, b)
+				in := !on && exact.RayCross(p.R(), a, b)
+				for mode := 1; mode < 4; mode++ {
+					fs := geometry.Segment{A: nz(a, mode&2 != 0), B: nz(b, mode&2 != 0)}
+					fp := nz(p, mode&1 != 0)
+					w.Evals += 3
+					w.States++
+					w.Nontriv++
+					res := fs.Raycast(fp)
+					if res.On != on || res.In != in || fs.ContainsPoint(fp) != on || fs.CollinearPoint(fp) != exact.Collinear(p, a, b) {
+						mode := mode
+						w.Fail("negative-zero", func() (rt.Case, string, string) {
+							return rt.Case{Kind: "negzero", Op: fmt.Sprint(mode), Nums: []float64{float64(a.X), float64(a.Y), float64(b.X), float64(b.Y), float64(p.X), float64(p.Y)}},
+								fmt.Sprintf("on=%v in=%v", on, in), fmt.Sprintf("raycast on=%v in=%v contains=%v collinear=%v", res.On, res.In, fs.ContainsPoint(fp), fs.CollinearPoint(fp))
+						})
+					}
+				}
+			}
+		}
+	})
+}
+
+func evalC19NegZero(c *rt.Case) (bool, string, string, error) {
+	if len(c.Nums) < 6 {
+		return false, "", "", fmt.Errorf("malformed case")
+	}
+	var mode int
+	fmt.Sscan(c.Op, &mode)
+	ip := func(i int) exact.P { return exact.P{X: int64(c.Nums[i]), Y: int64(c.Nums[i+1])} }
+	nz := func(p exact.P, on bool) geometry.Point {
+		q := geometry.Point{X: float64(p.X), Y: float64(p.Y)}
+		if on {
+			if p.X == 0 {
+				q.X = math.Copysign(0, -1)
+			}
+			if p.Y == 0 {
+				q.Y = math.Copysign(0, -1)
+			}
+		}
+		return q
+	}
+	a, b, p := ip(0), ip(2), ip(4)
+	on := exact.OnSeg(p, a, b)
+	in := !on && exact.RayCross(p.R(), a, b)
+	fs := geometry.Segment{A: nz(a, mode&2 != 0), B: nz(b, mode&2 != 0)}
+	fp := nz(p, mode&1 != 0)
+	res := fs.Raycast(fp)
+	bad := res.On != on || res.In != in || fs.ContainsPoint(fp) != on || fs.CollinearPoint(fp) != exact.Collinear(p, a, b)
+	return bad, fmt.Sprintf("on=%v in=%v", on, in), fmt.Sprintf("raycast on=%v in=%v", res.On, res.In), nil
 }
